@@ -69,6 +69,11 @@ var NoBody = protocol.NoBody
 
 type bodyStream struct {
 	prefetchedBytes *bytes.Reader
+	// prefetched holds the bytes prefetchedBytes reads from. They are a copy: the
+	// buffer they were read into stays with the request or response as its body
+	// buffer, which resets it, writes the collected body into it (Body()) or hands
+	// it back to its pool (SetBodyStream, ResetBody) while the stream is still read.
+	prefetched []byte
 	reader          network.Reader
 	trailer         *protocol.Trailer
 	offset          int
@@ -117,7 +122,8 @@ func ReadBodyWithStreaming(zr network.Reader, contentLength, maxBodySize int, ds
 
 func AcquireBodyStream(b *bytebufferpool.ByteBuffer, r network.Reader, t *protocol.Trailer, contentLength int) io.Reader {
 	rs := bodyStreamPool.Get().(*bodyStream)
-	rs.prefetchedBytes = bytes.NewReader(b.B)
+	rs.prefetched = append(rs.prefetched[:0], b.B...)
+	rs.prefetchedBytes = bytes.NewReader(rs.prefetched)
 	rs.reader = r
 	rs.contentLength = contentLength
 	rs.trailer = t
